@@ -23,6 +23,8 @@ def run(rep):
     import cache
     rep.guard(cache.cc1, rep, w, 'C14')     # a remembered global / attribute look-up must not outlive a write to the table it came from
     rep.guard(cache.cc2, rep, w, 'C14')
+    import c01
+    rep.guard(c01.r2, rep, w)     # a module remembered outside the registry (a per-statement import cache) is an unrooted handle - and a second way to reach a module that is still loading
     rep.guard(c08.x9, rep, w)     # the active module is re-read from the frame whenever the frame list changes (unwinding out of another module)
     rep.guard(c08.x7, rep, w)     # an ImportError that was delivered to a handler must not be followed by further pushes in the import handler
 
